@@ -111,7 +111,7 @@ static void parse(const char *f, int scan, Parse *p) {
         if (!scan && *c == '*') { if (slot < 16) p->kind[slot] = 3; slot++; c++; } else while (*c >= '0' && *c <= '9') c++;
         if (!scan && *c == '.') { c++; if (*c == '*') { if (slot < 16) p->kind[slot] = 3; slot++; c++; } else while (*c >= '0' && *c <= '9') c++; }
         if (scan && *c == '.') { p->valid = 0; if (p->first_invalid_slot == 99) p->first_invalid_slot = slot; return; }
-        while (*c && strchr("hlLjzt", *c)) c++;
+        while (*c && (strchr("hlLjztqZ", *c) || (scan && *c == 'm'))) c++;      /* incl. the glibc modifiers q, Z and scanf's allocation modifier m */
         if (!*c) { p->valid = 0; if (p->first_invalid_slot == 99) p->first_invalid_slot = slot; return; }
         if (*c == 'n') { p->has_n = 1; if (!suppress) { if (slot < 16) p->kind[slot] = 2; slot++; } continue; }
         if (strchr("diouxXcsfFeEgGaAp", *c) || (scan && *c == '[')) {
